@@ -25,6 +25,8 @@ type caseXZ struct {
 	// Prior > 0: an earlier writer of the same configuration in the same
 	// process took Prior bytes and was closed (odd) or abandoned (even)
 	Prior int `json:"prior,omitempty"`
+	// Via: how the pieces are handed over ("" Write; copy, string, bytes: see viaWrite)
+	Via string `json:"via,omitempty"`
 }
 
 func matcherName(m int) string {
@@ -181,6 +183,7 @@ func drawXZCase(t *rapid.T) caseXZ {
 	if rapid.IntRange(0, 3).Draw(t, "hasprior") == 0 {
 		c.Prior = rapid.IntRange(1, 20000).Draw(t, "prior")
 	}
+	c.Via = rapid.SampledFrom(viaKinds).Draw(t, "via")
 	if rapid.IntRange(0, 11).Draw(t, "oddcfg") == 0 {
 		gen.DrawOdd(t, &c.Cfg, "xz")
 		if c.Data.Len() > 200000 {
@@ -230,9 +233,9 @@ func runXZWrite(c caseXZ) (*writeResult, *ev.Failure) {
 	}
 	pos := 0
 	for i, l := range c.Part.Split(len(data)) {
-		n, err := w.Write(data[pos : pos+l])
+		n, err := viaWrite(w, data[pos:pos+l], c.Via)
 		if err != nil || n != l {
-			return nil, ev.Fail(fmt.Sprintf("Write #%d of %d bytes at offset %d returned (%d, %v)", i, l, pos, n, err),
+			return nil, ev.Fail(fmt.Sprintf("Write #%d (via %q) of %d bytes at offset %d returned (%d, %v)", i, c.Via, l, pos, n, err),
 				"stage", "write", "matcher", m, "err", fmt.Sprint(err))
 		}
 		pos += l
@@ -262,7 +265,8 @@ func runXZWrite(c caseXZ) (*writeResult, *ev.Failure) {
 }
 
 func classifyXZ(c caseXZ, rec *ev.Rec, res *ref.XZResult, n int) (nontrivial bool) {
-	rec.Class("matcher="+matcherName(c.Cfg.Matcher), "partition="+c.Part.Kind, fmt.Sprintf("check=%d", c.Cfg.EffCheck()))
+	rec.Class("matcher="+matcherName(c.Cfg.Matcher), "partition="+c.Part.Kind, fmt.Sprintf("check=%d", c.Cfg.EffCheck()), "write_via="+c.Via,
+		"xz.Writer_optional_interfaces="+optionalIfaces((*xz.Writer)(nil)))
 	lc, lp, pb := c.Cfg.EffProps()
 	if lc+lp == 4 {
 		rec.Class("lc+lp=4")
